@@ -101,7 +101,8 @@ def run(ctx, shape, opts):
     other = m.new_string('o t h e r')
     text = mkstring(ctx, orig)
     item = Struct('TrainData', [text, other] if part == 'Input' else [other, text], ['input', 'target'])
-    info = Struct('TextDataInfo', [seed, Int(0, 'usize'), MapObj('HashMap')], ['seed', 'file_idx', 'marks'])
+    fidx = ctx.in_int('file_idx', 'usize') if (ctx.concrete is None or 'file_idx' in ctx.concrete) else Int(0, 'usize')
+    info = Struct('TextDataInfo', [seed, fidx, MapObj('HashMap')], ['seed', 'file_idx', 'marks'])
     ctx.seeds_used = []
     r = m.call_value(pf, [item, info])
     ctx.require(r.variant == 'Ok', 'whitespace corruption succeeds')
@@ -133,7 +134,7 @@ def run(ctx, shape, opts):
     # determinism: every draw from a generator seeded with info.seed
     ctx.require(getattr(ctx, 'unseeded_draws', 0) == 0, 'no randomness from an unseeded generator')
     for sd in getattr(ctx, 'rng_seed_terms', []):
-        ctx.require(m.eq(sd, seed), 'the generator is seeded with info.seed')
+        ctx.require(term_vars(sd) <= {'seed'}, 'the output is a function of (text, seed): the generator is seeded from info.seed only')
     # label consistency through operations / repair
     if g and 'c14_cluster_boundary_changes' in opts.get('known_active', ()) and not opts.get('concrete'):
         pc = content_partition(units_of(ctx, cc, True), cws)
@@ -181,9 +182,10 @@ def _p(shape, inputs):
     return iw, dw
 
 
-def _call(native, shape, inputs, seed):
+def _call(native, shape, inputs, seed, file_idx=None):
     iw, dw = _p(shape, inputs)
-    return native_ok(native.call('corrupt_ws', s=_orig(shape, inputs), iw=iw, dw=dw, g=shape['g'], part=shape['part'], seed=str(seed)))
+    return native_ok(native.call('corrupt_ws', s=_orig(shape, inputs), iw=iw, dw=dw, g=shape['g'], part=shape['part'], seed=str(seed),
+                                 file_idx=str(inputs.get('file_idx', 0) if file_idx is None else file_idx)))
 
 
 def native_outputs(native, shape, inputs):
@@ -233,6 +235,15 @@ def concrete_check(native, inputs, shape):
         k2, again = _call(native, shape, inputs, seed)
         if again != v:
             failed.add('no randomness from an unseeded generator')
+        # dependence on anything but (text, seed): compare across file indices, also at probabilities where the
+        # random draws matter (the counterexample's own probabilities may make every draw irrelevant)
+        mid = dict(inputs, iw_p=0.5, dw_p=0.5)
+        for probe in (inputs, mid):
+            k1, base = _call(native, shape, probe, seed, file_idx=0)
+            for fi in (1, 7):
+                k2, other = _call(native, shape, probe, seed, file_idx=fi)
+                if k1 != 'ok' or k2 != 'ok' or other != base:
+                    failed.add('the output is a function of (text, seed): the generator is seeded from info.seed only')
         k3, ops = native_ok(native.call('ws_operations', a=cc, b=orig, g=g))
         if k3 != 'ok':
             return ['no panic']
